@@ -10,6 +10,31 @@ inductive PyErr where
   | valueError | typeError | xyzError | stopIteration | keyError | indexError | fileNotFound | other
 deriving Repr, DecidableEq, Inhabited
 
+/-- the effects a reap can attempt, as the skeletons record them -/
+inductive Eff where
+  | checkReady     -- check_ready_to_reap (raises when the crop is not ready)
+  | allNan         -- reading a finished batch to build the all-missing stand-in
+  | loadInfo       -- reading the crop's info file
+  | gather         -- the runner driving the Reaper: result files are read
+  | label          -- building the Dataset / DataFrame from the results
+  | reaperExit     -- the Reaper's exit check ("Not all results reaped!")
+  | setLast        -- recording the data as the farmer's last result
+  | sync           -- Harvester.add_ds / Sampler.add_df: merge with the store and save
+  | deleteAll      -- removing the crop directory
+deriving Repr, DecidableEq, Inhabited
+
+/-- run another skeleton, then continue on its trace unless it raised -/
+def skBind (r : List Eff × Option PyErr) (k : List Eff → List Eff × Option PyErr) : List Eff × Option PyErr :=
+  match r with
+  | (t, some e) => (t, some e)
+  | (t, none) => k t
+
+@[simp] theorem skBind_err (t : List Eff) (e : PyErr) (k) : skBind (t, some e) k = (t, some e) := rfl
+@[simp] theorem skBind_ok (t : List Eff) (k) : skBind (t, none) k = k t := rfl
+theorem skBind_ite (c : Prop) [Decidable c] (a b : List Eff × Option PyErr) (k) :
+    skBind (if c then a else b) k = if c then skBind a k else skBind b k := by
+  split <;> rfl
+
 end Gen
 
 namespace Gen.Default
@@ -188,6 +213,132 @@ def checkReady (allowIncomplete wait isReady : Bool) : Except PyErr Unit :=
     .ok ()
 
 def reaperUseDefault (hasDefault wait isFile : Bool) : Bool := (hasDefault && (!wait) && (!isFile))
+
+def reapCombosSk (fails : Eff → Bool) (wait : Bool) (cleanUp : Option Bool) (allowIncomplete : Bool) (trace : List Eff) : List Eff × Option PyErr :=
+  let trace := trace ++ [.checkReady]
+  if fails .checkReady then (trace, some .other) else
+  (match calcCleanUp cleanUp allowIncomplete with
+  | .error e => (trace, some e)
+  | .ok (cleanUp, defaultResult) =>
+    let trace := if defaultResult then trace ++ [.allNan] else trace
+    if defaultResult && fails .allNan then (trace, some .other) else
+    let trace := trace ++ [.loadInfo]
+    if fails .loadInfo then (trace, some .other) else
+    let settings := ()
+    let trace := trace ++ [.gather]
+    if fails .gather then (trace, some .other) else
+    let results := ()
+    let trace := trace ++ [.reaperExit]
+    if fails .reaperExit then (trace, some .other) else
+    if (cleanUp == some true) then
+      let trace := trace ++ [.deleteAll]
+      if fails .deleteAll then (trace, some .other) else
+      (trace, none)
+    else
+      (trace, none))
+
+def reapCombosToDsSk (fails : Eff → Bool) (wait : Bool) (cleanUp : Option Bool) (allowIncomplete toDf parse : Bool) (trace : List Eff) : List Eff × Option PyErr :=
+  let trace := trace ++ [.checkReady]
+  if fails .checkReady then (trace, some .other) else
+  (match calcCleanUp cleanUp allowIncomplete with
+  | .error e => (trace, some e)
+  | .ok (cleanUp, defaultResult) =>
+    let trace := if defaultResult then trace ++ [.allNan] else trace
+    if defaultResult && fails .allNan then (trace, some .other) else
+    let trace := trace ++ [.loadInfo]
+    if fails .loadInfo then (trace, some .other) else
+    let settings := ()
+    let trace := trace ++ [.gather]
+    if fails .gather then (trace, some .other) else
+    let trace := trace ++ [.label]
+    if fails .label then (trace, some .other) else
+    let data := ()
+    let trace := trace ++ [.reaperExit]
+    if fails .reaperExit then (trace, some .other) else
+    if (cleanUp == some true) then
+      let trace := trace ++ [.deleteAll]
+      if fails .deleteAll then (trace, some .other) else
+      (trace, none)
+    else
+      (trace, none))
+
+def reapRunnerSk (fails : Eff → Bool) (wait : Bool) (cleanUp : Option Bool) (allowIncomplete toDf : Bool) (trace : List Eff) : List Eff × Option PyErr :=
+  let trace := trace ++ [.loadInfo]
+  if fails .loadInfo then (trace, some .other) else
+  let sowConstants := ()
+  (skBind (reapCombosToDsSk fails wait cleanUp allowIncomplete toDf false trace) fun trace =>
+    let data := ()
+    let trace := trace ++ [.setLast]
+    if fails .setLast then (trace, some .other) else
+    (trace, none))
+
+def reapHarvestSk (fails : Eff → Bool) (wait sync : Bool) (cleanUp : Option Bool) (allowIncomplete : Bool) (trace : List Eff) : List Eff × Option PyErr :=
+  if false then
+    (trace, some .valueError)
+  else
+    (skBind (reapRunnerSk fails wait (some false : Option Bool) allowIncomplete false trace) fun trace =>
+      let ds := ()
+      if sync then
+        let trace := trace ++ [.sync]
+        if fails .sync then (trace, some .other) else
+        let cleanUp := if cleanUp.isNone then
+            let cleanUp := (some (!allowIncomplete) : Option Bool)
+            cleanUp
+          else
+            cleanUp
+        if (cleanUp == some true) then
+          let trace := trace ++ [.deleteAll]
+          if fails .deleteAll then (trace, some .other) else
+          (trace, none)
+        else
+          (trace, none)
+      else
+        let cleanUp := if cleanUp.isNone then
+            let cleanUp := (some (!allowIncomplete) : Option Bool)
+            cleanUp
+          else
+            cleanUp
+        if (cleanUp == some true) then
+          let trace := trace ++ [.deleteAll]
+          if fails .deleteAll then (trace, some .other) else
+          (trace, none)
+        else
+          (trace, none))
+
+def reapSamplesSk (fails : Eff → Bool) (wait sync : Bool) (cleanUp : Option Bool) (allowIncomplete : Bool) (trace : List Eff) : List Eff × Option PyErr :=
+  if false then
+    (trace, some .valueError)
+  else
+    (skBind (reapRunnerSk fails wait (some false : Option Bool) allowIncomplete true trace) fun trace =>
+      let df := ()
+      if sync then
+        let trace := trace ++ [.setLast]
+        if fails .setLast then (trace, some .other) else
+        let trace := trace ++ [.sync]
+        if fails .sync then (trace, some .other) else
+        let cleanUp := if cleanUp.isNone then
+            let cleanUp := (some (!allowIncomplete) : Option Bool)
+            cleanUp
+          else
+            cleanUp
+        if (cleanUp == some true) then
+          let trace := trace ++ [.deleteAll]
+          if fails .deleteAll then (trace, some .other) else
+          (trace, none)
+        else
+          (trace, none)
+      else
+        let cleanUp := if cleanUp.isNone then
+            let cleanUp := (some (!allowIncomplete) : Option Bool)
+            cleanUp
+          else
+            cleanUp
+        if (cleanUp == some true) then
+          let trace := trace ++ [.deleteAll]
+          if fails .deleteAll then (trace, some .other) else
+          (trace, none)
+        else
+          (trace, none))
 
 def autoAddExt (anyExtIn : Bool) (fileName engineExt : String) : Except PyErr String :=
   if (!anyExtIn) then
